@@ -113,8 +113,11 @@ class World:
     def container_dt(self):
         rng = self.rng
         q = rng.random()
-        if q < 0.4:
+        if q < 0.3:
             return 'array', self.D.ArrayOf(self.D.FloatRange(0, 10), 0, 3), (1.0,)
+        if q < 0.45:
+            # explicit limits datatype (as userlimits / abslimits of motor-like modules), member unit may be the main unit
+            return 'limits', self.D.LimitsType(self.D.FloatRange(-100, 100, unit=rng.choice(['', '$', 'mm']))), (-1.0, 1.0)
         if q < 0.7:
             return 'struct', self.D.StructOf(x=self.D.IntRange(0, 5), y=self.D.StringType(maxchars=9)), {'x': 1, 'y': 'a'}
         return 'tuple', self.D.TupleOf(self.D.IntRange(0, 5), self.D.EnumType(a=1, b=2, c=3)), (1, 2)
@@ -167,7 +170,7 @@ class World:
                 ns[name] = C.Parameter('redefined', dt, default=dflt)
             elif ov == 'bare':
                 val = {'double': 2.0, 'int': 3, 'scaled': 2.5, 'string': 'b', 'enum': 2, 'bool': False, 'array': (2.0, 3.0),
-                       'struct': {'x': 2, 'y': 'b'}, 'tuple': (2, 1)}[kind]
+                       'struct': {'x': 2, 'y': 'b'}, 'tuple': (2, 1), 'limits': (-2.0, 3.0)}[kind]
                 ns[name] = val
             elif ov == 'none':
                 ns[name] = None
